@@ -89,6 +89,39 @@ def write_profile(ps, path):
     return nc, data, names, units, comments
 
 
+APPEND_MODES = ('top-missing', 'bottom-missing', 'both-missing', 'beyond', 'full')
+
+
+def append_specs(rng, H, mode, nvars=None):
+    """1-3 variables to APPEND to an existing cast from data that cover only part of the water column (bottle
+    chemistry, ADCP currents, a tracer): each {'names', 'units', 'table'} with the depth column first.  `mode` says
+    which end of the depth range the samples leave uncovered ('beyond': the samples reach outside the cast)"""
+    out = []
+    pool = [(['oxygen'], ['kg/m^3']), (['ua', 'va'], ['m/s', 'm/s']), (['tracer_dye'], ['kg/m^3']),
+            (['methane'], ['kg/m^3']), (['ua'], ['m/s'])]
+    rng.shuffle(pool)
+    used = set()
+    for nms, uns in pool:
+        if len(out) >= (nvars or rng.randint(1, 3)) or used & set(nms):
+            continue
+        used |= set(nms)
+        n = rng.randint(2, 20)
+        lo, hi = {'top-missing': (rng.uniform(0.1, 0.5) * H, H), 'bottom-missing': (0., rng.uniform(0.4, 0.9) * H),
+                  'both-missing': (rng.uniform(0.1, 0.4) * H, rng.uniform(0.5, 0.9) * H),
+                  'beyond': (-rng.uniform(5., 60.), H + rng.uniform(5., 90.)), 'full': (0., H)}[mode]
+        z = sorted([lo, hi] + [rng.uniform(lo, hi) for _ in range(n - 2)])
+        cols = [z]
+        for nme in nms:
+            a, b, c = 10 ** rng.uniform(-4, -2), rng.uniform(0.2, 0.9), rng.uniform(40., 400.)
+            if nme in ('ua', 'va'):
+                a = rng.uniform(0.02, 0.3)
+            # a clear slope at both ends of the sampled range
+            cols.append([a * (1. + b * math.sin(v / c) + 0.5 * (v - lo) / max(hi - lo, 1.)) for v in z])
+        out.append({'names': ['z'] + nms, 'units': ['m'] + uns, 'table': np.array(cols, dtype=float).T.tolist(),
+                    'range': [lo, hi]})
+    return out
+
+
 def profile_from_file(path):
     from netCDF4 import Dataset
     from tamoc import ambient
